@@ -24,7 +24,10 @@ operation and after a crash -/
 structure DurInv (n : Node) : Prop where
   snap_le : ∀ i d, n.snap = some (i, d) → i ≤ n.hist.length ∧ n.logStart ≤ i
   nosnap  : n.snap = none → n.logStart = 0
-  fp_ok   : n.fp = true → n.dbFileOk = true → ∃ i d, n.snap = some (i, d) ∧ n.dbFile = d
+  /-- a marker that exists and was written for the NEWEST snapshot vouches for the database file -/
+  fp_ok   : n.fp = true → n.dbFileOk = true → ∀ i d, n.snap = some (i, d) → n.fpIdx = i → n.dbFile = d
+  /-- a marker is never for a snapshot newer than the newest one -/
+  fp_le   : n.fp = true → n.fpIdx ≤ newestIdx n
 
 /-- a node that is up and between operations -/
 structure Quiet (n : Node) : Prop where
@@ -39,6 +42,7 @@ theorem durInv_init : DurInv {} := by
   constructor
   · intro i d h; cases h
   · intro _; rfl
+  · intro h; cases h
   · intro h; cases h
 
 theorem quiet_init : Quiet {} := ⟨rfl, rfl, rfl, rfl, rfl, rfl⟩
@@ -65,6 +69,7 @@ theorem durInv_appendEntry {n : Node} (h : DurInv n) (c : Cmd) : DurInv (appendE
     simp only [List.length_append, List.length_singleton]; omega
   · exact h.nosnap
   · exact h.fp_ok
+  · exact h.fp_le
 
 theorem swapRun_valid (n : Node) (d : Db) :
     swapRun swapSteps (some d) n = { n with dbFile := d, dbFileOk := true, live := d } := by
@@ -90,6 +95,11 @@ theorem durInv_fsmApply {n : Node} (h : DurInv n) (c : Cmd) : DurInv (fsmApply n
     | load d => intro hf; simp [fsmApply, swapRun_valid] at hf
     | loadBad => exact h.fp_ok
     | noop => exact h.fp_ok
+  · cases c with
+    | exec tx ss => exact h.fp_le
+    | load d => intro hf; simp [fsmApply, swapRun_valid] at hf
+    | loadBad => exact h.fp_le
+    | noop => exact h.fp_le
 
 theorem truth_fsmApply (n : Node) (c : Cmd) : truth (fsmApply n c) = truth n := by
   obtain ⟨h1, h2, _⟩ := fsmApply_fields n c
@@ -119,10 +129,13 @@ theorem durInv_snapCheckpoint {n : Node} (h : DurInv n) : DurInv (snapCheckpoint
   constructor
   · exact h.snap_le
   · exact h.nosnap
-  · intro hf hok
+  · intro hf hok i d hs hi
     simp only [snapCheckpoint, Bool.and_eq_true, decide_eq_true_eq] at hf
-    obtain ⟨i, d, hs, hd⟩ := h.fp_ok hf.1 hok
-    exact ⟨i, d, hs, by show n.live = d; rw [← hf.2]; exact hd⟩
+    have hd := h.fp_ok hf.1 hok i d hs hi
+    show n.live = d; rw [← hf.2]; exact hd
+  · intro hf
+    simp only [snapCheckpoint, Bool.and_eq_true, decide_eq_true_eq] at hf
+    exact h.fp_le hf.1
 
 theorem quiet_snapCheckpoint {n : Node} (q : Quiet n) : Quiet (snapCheckpoint n) ∧ truth (snapCheckpoint n) = truth n :=
   ⟨⟨q.up, q.applied, q.live, q.notmp, q.fileok, q.nopeers⟩, rfl⟩
@@ -130,11 +143,11 @@ theorem quiet_snapCheckpoint {n : Node} (q : Quiet n) : Quiet (snapCheckpoint n)
 theorem snapPersist_eq (n : Node) : snapPersist n = { n with snapTmp := some (n.applied, n.live) } := by
   simp [snapPersist, persistSteps, List.foldl, persistStep]
 
-theorem snapFingerprint_eq (n : Node) : snapFingerprint n = { n with fp := true } := by
+theorem snapFingerprint_eq (n : Node) : snapFingerprint n = { n with fp := true, fpIdx := newestIdx n } := by
   simp [snapFingerprint, sinkStep]
 
 theorem durInv_snapPersist {n : Node} (h : DurInv n) : DurInv (snapPersist n) :=
-  ⟨h.snap_le, h.nosnap, h.fp_ok⟩
+  ⟨h.snap_le, h.nosnap, h.fp_ok, h.fp_le⟩
 
 /-- what a snapshot needs from the state it starts in (the live database need NOT be what
 the durable state stands for: a boot snapshots right after swapping a foreign database in) -/
@@ -180,8 +193,19 @@ theorem durInv_snapInstall {n : Node} (h : DurInv n) (m : MidSnap n) : DurInv (s
     | none => rw [h.nosnap hs']; exact Nat.zero_le _
     | some p => obtain ⟨j, e⟩ := p; have := h.snap_le j e hs'; omega
   · intro hs; cases hs
-  · intro hf hok
-    exact ⟨n.hist.length, n.live, rfl, m.file⟩
+  · intro hf hok i d hs _
+    simp only [Option.some.injEq, Prod.mk.injEq] at hs
+    obtain ⟨rfl, rfl⟩ := hs
+    exact m.file
+  · intro hf
+    show n.fpIdx ≤ n.hist.length
+    have := h.fp_le hf
+    cases hs' : n.snap with
+    | none => simp [newestIdx, hs'] at this; omega
+    | some p =>
+      obtain ⟨j, e⟩ := p
+      simp only [newestIdx, hs'] at this
+      have := h.snap_le j e hs'; omega
 
 /-- after the install the database file equals the newest snapshot -/
 structure PostInstall (n : Node) : Prop where
@@ -199,8 +223,14 @@ theorem postInstall {n : Node} (m : MidSnap n) : PostInstall (snapInstall n) := 
   exact ⟨m.up, m.applied, ht.symm, rfl,
     by show some (n.hist.length, n.live) = some (n.hist.length, n.dbFile); rw [m.file], m.fileok, m.nopeers⟩
 
-theorem durInv_snapFingerprint {n : Node} (h : DurInv n) (p : PostInstall n) : DurInv (snapFingerprint n) :=
-  ⟨h.snap_le, h.nosnap, fun _ _ => ⟨n.hist.length, n.dbFile, p.snap, rfl⟩⟩
+theorem durInv_snapFingerprint {n : Node} (h : DurInv n) (p : PostInstall n) : DurInv (snapFingerprint n) := by
+  rw [snapFingerprint_eq]
+  refine ⟨h.snap_le, h.nosnap, ?_, fun _ => Nat.le_refl _⟩
+  intro _ _ i d hs _
+  have hs' : n.snap = some (i, d) := hs
+  rw [p.snap] at hs'
+  simp only [Option.some.injEq, Prod.mk.injEq] at hs'
+  exact hs'.2
 
 theorem quiet_snapFingerprint {n : Node} (p : PostInstall n) :
     Quiet (snapFingerprint n) ∧ truth (snapFingerprint n) = truth n :=
@@ -225,7 +255,7 @@ theorem snapCompact_spec {n : Node} (h : DurInv n) (t : Nat) :
     have e : snapCompact n t = { n with logStart := max n.logStart (i - t) } := by simp [snapCompact, hs]
     rw [e]
     have hle := h.snap_le i d hs
-    refine ⟨⟨?_, ?_, ?_⟩, ?_, ?_⟩
+    refine ⟨⟨?_, ?_, ?_, ?_⟩, ?_, ?_⟩
     · intro j e2 hs2
       have hs2' : n.snap = some (j, e2) := hs2
       rw [hs] at hs2'
@@ -236,6 +266,7 @@ theorem snapCompact_spec {n : Node} (h : DurInv n) (t : Nat) :
       omega
     · intro hs2; have hs2' : n.snap = none := hs2; rw [hs] at hs2'; cases hs2'
     · exact h.fp_ok
+    · exact h.fp_le
     · rfl
     · intro q
       exact ⟨q.up, q.applied, q.live, q.notmp, q.fileok, q.nopeers⟩
@@ -284,7 +315,7 @@ theorem boot_spec {n : Node} (h : DurInv n) (q : Quiet n) (d : Db) :
     (boot n d).snap = some ((boot n d).hist.length, d) ∧ (boot n d).fullNeeded = false := by
   obtain ⟨q1, h1, _⟩ := quiet_write h q .noop
   have h2 : DurInv { write n .noop with live := d, dbFile := d, fp := false, fullNeeded := true } :=
-    ⟨h1.snap_le, h1.nosnap, fun hf => by cases hf⟩
+    ⟨h1.snap_le, h1.nosnap, fun hf => Bool.noConfusion hf, fun hf => Bool.noConfusion hf⟩
   have p2 : SnapPre { write n .noop with live := d, dbFile := d, fp := false, fullNeeded := true } :=
     ⟨q1.up, q1.applied, q1.notmp, q1.fileok, q1.nopeers⟩
   obtain ⟨a, b, c, hh, e, f, g, _⟩ := snapshot_gen h2 p2 1
@@ -294,7 +325,7 @@ theorem boot_spec {n : Node} (h : DurInv n) (q : Quiet n) (d : Db) :
 
 /-! ### crash and open -/
 
-theorem durInv_crash {n : Node} (h : DurInv n) : DurInv (crash n) := ⟨h.snap_le, h.nosnap, h.fp_ok⟩
+theorem durInv_crash {n : Node} (h : DurInv n) : DurInv (crash n) := ⟨h.snap_le, h.nosnap, h.fp_ok, h.fp_le⟩
 
 theorem truth_crash (n : Node) : truth (crash n) = truth n := rfl
 
@@ -331,29 +362,26 @@ theorem replayLog_fields (n : Node) :
     (replayLog n).config = n.config ∧ (replayLog n).applied = n.hist.length ∧ truth (replayLog n) = truth n :=
   ⟨rfl, rfl, rfl, rfl, rfl, rfl, rfl, rfl, rfl, rfl, rfl, rfl⟩
 
-theorem durInv_replayLog {n : Node} (h : DurInv n) : DurInv (replayLog n) := ⟨h.snap_le, h.nosnap, h.fp_ok⟩
+theorem durInv_replayLog {n : Node} (h : DurInv n) : DurInv (replayLog n) := ⟨h.snap_le, h.nosnap, h.fp_ok, h.fp_le⟩
 
-theorem durInv_openPrep {n : Node} (h : DurInv n) : DurInv (openPrep n) := ⟨h.snap_le, h.nosnap, h.fp_ok⟩
+theorem durInv_openPrep {n : Node} (h : DurInv n) : DurInv (openPrep n) := ⟨h.snap_le, h.nosnap, h.fp_ok, h.fp_le⟩
 
 /-- fast path: needs a matching fingerprint -/
 theorem openFast_spec {n : Node} (h : DurInv n) (i : Nat) (d : Db) (hs : n.snap = some (i, d))
-    (hf : n.fp = true) (hok : n.dbFileOk = true) :
+    (hf : n.fp = true) (hok : n.dbFileOk = true) (hidx : n.fpIdx = i) :
     (openFast n i).live = truth n ∧ DurInv (openFast n i) := by
-  obtain ⟨j, e, hs2, hfile⟩ := h.fp_ok hf hok
-  rw [hs] at hs2
-  simp only [Option.some.injEq, Prod.mk.injEq] at hs2
-  obtain ⟨rfl, rfl⟩ := hs2
+  have hfile := h.fp_ok hf hok i d hs hidx
   have hle := h.snap_le i d hs
   unfold openFast
   constructor
   · have := replayLog_truth (n := { n with live := n.dbFile, applied := i }) hle.2 hle.1
       (by simp [hs, hfile, replay])
     rw [this]; rfl
-  · exact ⟨h.snap_le, h.nosnap, h.fp_ok⟩
+  · exact ⟨h.snap_le, h.nosnap, h.fp_ok, h.fp_le⟩
 
 theorem restoreNewest_some {n : Node} {i : Nat} {d : Db} (hs : n.snap = some (i, d)) :
-    restoreNewest n = { n with dbFile := d, dbFileOk := true, fp := true, live := d, applied := i } := by
-  simp [restoreNewest, hs, restoreSteps, List.foldl, restoreStep]
+    restoreNewest n = { n with dbFile := d, dbFileOk := true, fp := true, fpIdx := i, live := d, applied := i } := by
+  simp [restoreNewest, hs, restoreSteps, List.foldl, restoreStep, newestIdx]
 
 theorem restoreNewest_none {n : Node} (hs : n.snap = none) :
     restoreNewest n = { n with dbFile := [], dbFileOk := true, fp := false, live := [], applied := 0 } := by
@@ -381,29 +409,39 @@ theorem openRebuild_spec {n : Node} (h : DurInv n) :
     have hl0 := h.nosnap hs
     have e := restoreNewest_none hs
     rw [e]
-    refine ⟨?_, ⟨?_, ?_, ?_⟩, rfl⟩
+    refine ⟨?_, ⟨?_, ?_, ?_, ?_⟩, rfl⟩
     · have := replayLog_truth (n := { n with dbFile := [], dbFileOk := true, fp := false, live := [], applied := 0 })
         (by show n.logStart ≤ 0; omega) (Nat.zero_le _) (by simp [hs, replay])
       rw [this]; rfl
     · exact h.snap_le
     · exact h.nosnap
     · intro hf; cases hf
+    · intro hf; cases hf
   | some p =>
     obtain ⟨i, d⟩ := p
     have hle := h.snap_le i d hs
     have e := restoreNewest_some hs
     rw [e]
-    refine ⟨?_, ⟨?_, ?_, ?_⟩, rfl⟩
-    · have := replayLog_truth (n := { n with dbFile := d, dbFileOk := true, fp := true, live := d, applied := i })
+    refine ⟨?_, ⟨?_, ?_, ?_, ?_⟩, rfl⟩
+    · have := replayLog_truth (n := { n with dbFile := d, dbFileOk := true, fp := true, fpIdx := i, live := d, applied := i })
         hle.2 hle.1 (by simp [hs, replay])
       rw [this]; rfl
     · exact h.snap_le
     · exact h.nosnap
-    · intro _ _; exact ⟨i, d, hs, rfl⟩
+    · intro _ _ j e hs2 _
+      have hs2' : n.snap = some (j, e) := hs2
+      rw [hs] at hs2'
+      simp only [Option.some.injEq, Prod.mk.injEq] at hs2'
+      exact hs2'.2
+    · intro _
+      show i ≤ newestIdx (replayLog { n with dbFile := d, dbFileOk := true, fp := true, fpIdx := i, live := d, applied := i })
+      have : newestIdx (replayLog { n with dbFile := d, dbFileOk := true, fp := true, fpIdx := i, live := d, applied := i }) = i := by
+        simp [newestIdx, replayLog, hs]
+      omega
 
 theorem openNode_nopeers {n : Node} (hp : n.peersFile = none) :
     openNode n = match n.snap with
-      | some (i, _) => if n.fp && n.dbFileOk then openFast (openPrep n) i else openRebuild (openPrep n)
+      | some (i, _) => if n.fp && n.dbFileOk && n.fpIdx == i then openFast (openPrep n) i else openRebuild (openPrep n)
       | none => openRebuild (openPrep n) := by
   unfold openNode; rw [hp]; rfl
 
@@ -427,12 +465,12 @@ theorem open_truth {n : Node} (h : DurInv n) (hp : n.peersFile = none) :
   | some p =>
     obtain ⟨i, d⟩ := p
     simp only
-    by_cases hfast : (n.fp && n.dbFileOk) = true
+    by_cases hfast : (n.fp && n.dbFileOk && n.fpIdx == i) = true
     · rw [if_pos hfast]
-      simp only [Bool.and_eq_true] at hfast
-      obtain ⟨l, dd⟩ := openFast_spec hprep i d hs hfast.1 hfast.2
+      simp only [Bool.and_eq_true, beq_iff_eq] at hfast
+      obtain ⟨l, dd⟩ := openFast_spec hprep i d hs hfast.1.1 hfast.1.2 hfast.2
       have ht : truth (openFast (openPrep n) i) = truth n := rfl
-      refine ⟨by rw [l, htp], ht, dd, ⟨rfl, rfl, by rw [l, htp, ht], rfl, hfast.2, hp⟩, rfl, rfl⟩
+      refine ⟨by rw [l, htp], ht, dd, ⟨rfl, rfl, by rw [l, htp, ht], rfl, hfast.1.2, hp⟩, rfl, rfl⟩
     · rw [if_neg hfast]
       obtain ⟨l, dd, fok⟩ := openRebuild_spec hprep
       have ht : truth (openRebuild (openPrep n)) = truth n := by
@@ -457,12 +495,13 @@ theorem recoverNode_spec {n : Node} (h : DurInv n) (peers : Config) :
   have e : recoverNode n peers = { n with snap := some (n.hist.length, truth n), logStart := n.hist.length, config := peers, peersFile := none, fp := false, fullNeeded := false } := by
     unfold recoverNode; simp only [hrec]
   rw [e]
-  refine ⟨⟨?_, ?_, ?_⟩, ?_, rfl, rfl, rfl, rfl, rfl⟩
+  refine ⟨⟨?_, ?_, ?_, ?_⟩, ?_, rfl, rfl, rfl, rfl, rfl⟩
   · intro i d hs
     simp only [Option.some.injEq, Prod.mk.injEq] at hs
     obtain ⟨rfl, rfl⟩ := hs
     exact ⟨Nat.le_refl _, Nat.le_refl _⟩
   · intro hs; cases hs
+  · intro hf; cases hf
   · intro hf; cases hf
   · simp [truth, replay_nil]
 
@@ -473,7 +512,7 @@ theorem open_invalid_peers {n : Node} (h : DurInv n) (peers : Config) (hp : n.pe
     openNode n = { n with fp := false } ∧ DurInv (openNode n) ∧ truth (openNode n) = truth n := by
   have e : openNode n = { n with fp := false } := by unfold openNode; rw [hp]; simp [hv]
   rw [e]
-  exact ⟨rfl, ⟨h.snap_le, h.nosnap, fun hf => by cases hf⟩, rfl⟩
+  exact ⟨rfl, ⟨h.snap_le, h.nosnap, fun hf => Bool.noConfusion hf, fun hf => Bool.noConfusion hf⟩, rfl⟩
 
 /-- `Open` with a valid peers file: `RecoverNode`, then the normal start-up (never the fast path) -/
 theorem open_recover_truth {n : Node} (h : DurInv n) (peers : Config) (hp : n.peersFile = some peers)
